@@ -229,3 +229,49 @@ if __name__ == "__main__":
     import sys
     if "--freeze" in sys.argv:
         freeze_census()
+
+
+# ---------------------------------------------------------------------------------------------------------------
+# Functions whose *caller* re-emits the comments of one side of the node (moves them behind a comma / onto the next line):
+# the node they return must have that side replaced on every path, otherwise the comment is printed twice (and the first
+# copy comments out what follows on its line). Found by enumerating all formatter functions for this shape on the current
+# tree, confirmed by reading.
+STRIP_CONTRACT = {
+    "formatters::table::format_field_expression_value": ("trailing", "format_field moves the value's line comments behind the comma"),
+    "formatters::assignment::hang_equal_token": ("trailing", "comments after `=` are re-emitted inside the replaced trivia"),
+}
+
+
+def rule_strip_contract(ctx, prop):
+    from paths import Enumerator, TooManyPaths
+    rep = Report(prop, "R-REPLACE(contract)", "functions whose caller re-emits one side's comments return, on every path, a node "
+                                              "whose trivia on that side was replaced (no layout branch keeps the original)")
+    for cfg, prog in ctx.programs.items():
+        for path, (side, why) in STRIP_CONTRACT.items():
+            f = prog.fn("stylua_lib", path)
+            if not rep.anchor(f is not None, path, cfg):
+                continue
+            try:
+                res = Enumerator(f, summaries=False, max_paths=5000).run()
+            except TooManyPaths:
+                rep.anchor(False, f"{path}: too many paths", cfg)
+                continue
+            bad = set()
+            for st in res:
+                v0 = st.vals.get(0)
+                ok = False
+                via = "?"
+                if v0 and v0[0] == "callres":
+                    t = f.blocks[v0[1]]["term"]
+                    via = callee(t).split("::")[-1]
+                    if re.search(rf"update_{side}_trivia$", callee(t)) and \
+                            any(r[0] == "agg" and r[1].endswith("FormatTriviaType::Replace") for r in provenance(f, t["args"][1])):
+                        ok = True
+                if not ok:
+                    bad.add(via)
+            rep.inst(f"{f.key} every return replaces the {side} trivia", {"paths": len(res), "why": why}, cfg, ok=not bad and bool(res))
+            for via in sorted(bad):
+                rep.violation(f"{f.key} returns-with-original-{side}-trivia via={via}",
+                              f"{path} returns, on some path, the result of {via} without replacing its {side} trivia; {why}, so "
+                              f"the comment appears twice and the first copy swallows what follows it on the line", f.loc(), cfg)
+    return rep
